@@ -16,6 +16,11 @@ R32b every collection sink is filtered per element by has_access(elem, user_role
 R32c has_access has the shape `no required roles or required roles intersect user roles`.
 Evidence lists every route with its sinks and guards. Decides coverage of the role check for every
 request; token validation itself (jwt) is outside.
+R32d live data supersedes stored data: a route that lists both the registered (live) engines and the stored recent engines
+     may show a stored engine only if its id is not among the ids of *all* registered engines - the collection in that
+     `not in` test must be derived from the unfiltered live collection (ids only), never from the list that already
+     passed the access filter. Otherwise a unit the user may not see (live required roles) falls through to its stored
+     row and is judged by the roles it had when it last disconnected.
 """
 from __future__ import annotations
 
@@ -278,6 +283,46 @@ def run(ctx) -> None:
         table.append(row)
     ctx.extra["route_table"] = table
     ctx.floor("R32a", 35)
+    # ---- R32d
+    ctx.rule("R32d", "stored engines are listed only when no live engine has the id (test against the unfiltered live ids)")
+    from ..util import local_single_defs as _lsd
+    n_sup = 0
+    for (f, verb, path) in [(r_[1], r_[2], r_[3]) for r_ in routes]:
+        calls_ = [c for c in walk_no_nested(f.node) if isinstance(c, ast.Call)]
+        live = [c for c in calls_ if call_attr(c) == "get_all_registered_engine_data"]
+        stored = [c for c in calls_ if call_attr(c) == "get_recent_engines"]
+        if not live or not stored:
+            continue
+        defs_ = _lsd(f)
+        live_locals = {k for k, v in defs_.items() if isinstance(v, ast.Call) and call_attr(v) == "get_all_registered_engine_data"}
+        # lists that are filled under an access filter in this function
+        filtered_lists = set()
+        for x in walk_no_nested(f.node):
+            if isinstance(x, ast.Call) and call_attr(x) == "append" and isinstance(x.func.value, ast.Name):
+                filtered_lists.add(x.func.value.id)
+        tests_ = [n for n in walk_no_nested(f.node) if isinstance(n, ast.Compare) and len(n.ops) == 1 and isinstance(n.ops[0], ast.NotIn)
+                  and isinstance(n.left, ast.Attribute) and n.left.attr in ("engine_id", "id")]
+        for t in tests_:
+            n_sup += 1
+            inst = f"{f.short} [{verb.upper()} {path}]: `{norm(t)[:80]}` tests against all registered engine ids"
+            coll = t.comparators[0]
+            coll = defs_.get(coll.id, coll) if isinstance(coll, ast.Name) else coll
+            srcs = {x.id for x in ast.walk(coll) if isinstance(x, ast.Name) and isinstance(x.ctx, ast.Load)}
+            iters = []
+            for comp in ast.walk(coll):
+                if isinstance(comp, (ast.ListComp, ast.SetComp, ast.GeneratorExp)):
+                    iters += [norm(g_.iter) for g_ in comp.generators]
+            if iters and all(it in live_locals or it.endswith("get_all_registered_engine_data()") for it in iters):
+                ctx.ok("R32d", inst)
+            elif any(it in filtered_lists for it in iters) or (srcs & filtered_lists):
+                ctx.fail("R32d", f, t, inst, f"the 'already online' test uses `{norm(t.comparators[0])}`, which is built from the list that "
+                         "already passed the access filter: a registered engine the user may not see is not recognised as online, "
+                         "its stored recent-engine row is then judged by the roles it had at its last disconnect and the unit is "
+                         "listed")
+            else:
+                raise AnchorError(f"{f.short}: collection of the 'already online' test not understood ({norm(t.comparators[0])[:60]})")
+    if n_sup < 1:
+        raise AnchorError("no route combining live and stored engines found (R32d would pass vacuously)")
     if len(routes) < 40:
         raise AnchorError(f"only {len(routes)} routes found (floor 40)")
 
